@@ -325,6 +325,10 @@ struct rp_h {
     size_t out_calls, out_fail_from; /* sink calls so far; index of the first one that fails (SIZE_MAX: never) */
     unsigned out_failed;
     size_t out_maxper; /* > 0: the reply sink takes at most this many octets per call */
+    int out_octet;     /* the reply sink is an octet-style driver */
+    size_t out_hiccup_at; /* index of the one sink call that moves nothing and reports out_hiccup_code (SIZE_MAX: none) */
+    int out_hiccup_code;
+    unsigned out_hiccups;
     /* recycling pool (one block of up to RP_RECMAX octets that is handed out again and again, content intact) */
     int recycle, rec_live;
     unsigned char recmem[64 + RP_RECMAX + 64];
@@ -486,6 +490,12 @@ static ssize_t
 rp_sink_chunk(void *drv, const void *p, size_t n)
 {
     struct rp_h *h = drv;
+    /* a driver that is interrupted once: nothing moved, try again */
+    if (h->out_calls == h->out_hiccup_at) {
+        h->out_calls++;
+        h->out_hiccups++;
+        return h->out_hiccup_code;
+    }
     /* a reply channel that is down: every write from the out_fail_from-th on is refused */
     if (h->out_calls++ >= h->out_fail_from) {
         /* what the library tried to send is kept for the record (an acknowledgement among it still counts) */
@@ -504,6 +514,13 @@ rp_sink_chunk(void *drv, const void *p, size_t n)
     memcpy(h->out + h->out_n, p, n);
     h->out_n += n;
     return (ssize_t)n;
+}
+
+static int
+rp_sink_octet(void *drv, unsigned char c)
+{
+    ssize_t rc = rp_sink_chunk(drv, &c, 1);
+    return rc < 0 ? (int)rc : 1;
 }
 
 static uint64_t
@@ -565,6 +582,7 @@ static RPBlockAccess rp_w8(uint32_t a, size_t n, const uint8_t *b) { return rp_b
 
 static unsigned rp_setup_toggle;
 static size_t rp_next_window; /* set before rp_setup() to get a getbuffer source with that window size */
+static int rp_next_sink_octet; /* set before rp_setup() to get an octet-style reply sink */
 
 static void
 rp_setup(struct rp_h *h, int serial, int mem16, size_t blocksize)
@@ -585,6 +603,10 @@ rp_setup(struct rp_h *h, int serial, int mem16, size_t blocksize)
     h->out_calls = 0;
     h->out_fail_from = SIZE_MAX;
     h->out_failed = 0;
+    h->out_hiccup_at = SIZE_MAX;
+    h->out_hiccups = 0;
+    h->out_octet = rp_next_sink_octet;
+    rp_next_sink_octet = 0;
     {
         static const size_t pers[] = { 0, 0, 1, 0, 3, 7, 0, 64 };
         h->out_maxper = blocksize > 1000 ? 0 : pers[(rp_setup_toggle / 2 + vh_unit_salt / 4) % 8];
@@ -615,7 +637,10 @@ rp_setup(struct rp_h *h, int serial, int mem16, size_t blocksize)
     } else {
         octet_source_init(&src, rp_src_octet, h);
     }
-    chunk_sink_init(&snk, rp_sink_chunk, h);
+    if (h->out_octet)
+        octet_sink_init(&snk, rp_sink_octet, h);
+    else
+        chunk_sink_init(&snk, rp_sink_chunk, h);
     regp_use_channel(&h->p, serial ? RP_EP_SERIAL : RP_EP_TCP, src, snk);
     regp_use_allocator(&h->p, &h->alloc);
     rp_cur = h;
